@@ -247,6 +247,12 @@ func (s *scn) genSpecs() {
 		}
 		s.specs[0].stateable = true
 		s.specs[0].heldSub = true
+	case "subentry":
+		// a subscriber arrives before a later Stateable runnable is started (witness of C06_subscriber_refuted)
+		s.specs = make([]spec, 2)
+		for i := range s.specs {
+			s.specs[i] = spec{exit: "sig", stopBlocks: s.r.Bool(), stateable: true}
+		}
 	case "subclose":
 		// a subscriber's context ends while a broadcast is in progress
 		s.specs = make([]spec, 1+s.r.Intn(2))
@@ -261,7 +267,7 @@ func (s *scn) genSpecs() {
 			s.specs[i] = spec{exit: "sig", stopBlocks: s.r.Bool()}
 		}
 		s.specs[0].stateable = true
-	case "gatefail":
+	case "gatefail", "gatecancel":
 		// an earlier runnable fails while the supervisor is inside IsRunning() of a later gate
 		s.specs = make([]spec, 3+s.r.Intn(2))
 		for i := range s.specs {
@@ -693,6 +699,33 @@ func (s *scn) preludeGatefail() {
 	}
 }
 
+// preludeGatecancel (witness of C03_pending_refuted): while the gate's IsRunning() call is pending,
+// let runnable 0 fail and wait until its error is queued; then cancel the parent context and answer
+// false: the select in blockUntilRunnableReady has errorChan and ctx.Done ready at once.
+func (s *scn) preludeGatecancel() {
+	c1 := s.cores[1]
+	deadline := time.Now().Add(3 * time.Second)
+	for !c1.PollPending.Load() && time.Now().Before(deadline) {
+		time.Sleep(200 * time.Microsecond)
+	}
+	if !c1.PollPending.Load() {
+		return
+	}
+	s.quiesce()
+	s.runReleased[0] = true
+	s.cores[0].RunRelease <- s.mkErr(false)
+	s.quiesce()
+	s.shutdownTriggered = true
+	s.parentCancelled = true
+	s.rec.Emit("ParentCancel")
+	s.pcancel()
+	select {
+	case c1.PollRelease <- false:
+	case <-time.After(time.Second):
+	}
+	s.quiesce()
+}
+
 // preludeFinalState: park runnable 0's state monitor (inside its broadcast, on a log record) while
 // the runnable goes Stopping -> Stopped during shutdown, then let it continue.
 func (s *scn) preludeFinalState() {
@@ -777,6 +810,41 @@ func (s *scn) preludeSubClose() {
 	s.quiesce()
 }
 
+// preludeSubEntry: subscribe while Run() waits at runnable 0's gate, take the initial snapshot, open
+// the gate, let runnable 1 start and become ready without ever changing state, then look at the
+// subscriber's channel and at GetStateMap() at a quiescent point.
+func (s *scn) preludeSubEntry() {
+	s.rec.WaitFor("RunCall 0", 3*time.Second)
+	s.quiesce()
+	s.nextSub++
+	c := s.nextSub
+	ctx, cancel := context.WithCancel(context.Background())
+	s.rec.Emit("Subscribe %d", c)
+	ch := s.sup.SubscribeStateChanges(ctx)
+	sb := &subSt{ch: ch, cancel: cancel}
+	s.subs[c] = sb
+	s.quiesce()
+	take := func() {
+		select {
+		case m, ok := <-sb.ch:
+			if ok {
+				s.rec.Emit("SubRecv %d %s", c, s.mapStr(m))
+			}
+		default:
+		}
+	}
+	take()
+	s.readySet[0] = true
+	s.cores[0].SetReady(true)
+	s.rec.WaitFor("RunCall 1", 3*time.Second)
+	s.quiesce()
+	s.readySet[1] = true
+	s.cores[1].SetReady(true)
+	s.quiesce()
+	take()
+	s.snap()
+}
+
 func (s *scn) allCallersBack() bool {
 	s.mu.Lock()
 	defer s.mu.Unlock()
@@ -803,6 +871,9 @@ func (s *scn) run() {
 	if s.family == "gatefail" {
 		s.preludeGatefail()
 	}
+	if s.family == "gatecancel" {
+		s.preludeGatecancel()
+	}
 	if s.family == "finalstate" {
 		s.preludeFinalState()
 	}
@@ -811,6 +882,9 @@ func (s *scn) run() {
 	}
 	if s.family == "subclose" {
 		s.preludeSubClose()
+	}
+	if s.family == "subentry" {
+		s.preludeSubEntry()
 	}
 	steps := 6 + s.r.Intn(18)
 	phase := "startup"
